@@ -83,6 +83,8 @@ XLayerFails(e) ==
   LET lay == Layout(e.dir, e.cid) IN
   Tag(e.err = "" /\ e.berr = "" /\ "back" \in DOMAIN e /\ e.back = e.val /\ e.bytes = EncodeLayout(lay, e.val), "C15.encodable")
 
+Max2(a, b) == IF a >= b THEN a ELSE b
+SetMax(S) == CHOOSE x \in S : \A y \in S : y <= x
 PlanFails(e) ==
   LET n == Len(e.chans)
       cs == [k \in 1..n |-> [en |-> e.chans[k].en, cu |-> e.chans[k].cu]]
@@ -93,7 +95,7 @@ PlanFails(e) ==
   IN  IF e.err # "" THEN <<"C14.reach">> ELSE
       Tag(res = tgt, "C14.reach")
       \o Tag(\A k \in 1..Len(e.encs) : e.encs[k] = 0, "C14.encodable")
-      \o Tag(Len(e.payloads) <= Blocks(n, 16) + 1, "C14.count")
+      \o Tag(Len(e.payloads) <= Blocks(Max2(n, 1 + SetMax(dev \cup {0})), 16) + 1, "C14.count")   \* blocks of the plan and of stale device channels
       \o Tag(dev = tgt => e.payloads = <<>>, "C14.minimal")
       \o Tag(IF res = Invalid THEN e.aerr # "" ELSE e.aerr = "" /\ SetOf(e.applied) = res /\ e.applied = SortedSeq(res), "C14.apply")
 
